@@ -27,7 +27,7 @@ CASES = {"quick": 12000, "thorough": 150000}
 MIN_CASES = {"quick": 2500, "thorough": 2500}
 REQUIRED_CLASSES = ["int_origin", "nonuniform", "fractional_size", "shifted_origin", "scaled", "decimal"]
 REQUIRED_COUNTERS = ["model_sets_compared", "models_enumerated", "reference_shapes_enumerated", "solve_return_checked", "bound:none", "bound:optimum", "bound:optimum+1",
-                     "via:direct", "via:allocation", "via:select_box", "order:reversed", "order:snake", "order:shuffled", "order:column_major", "k:1", "k:2", "k:3"]
+                     "long_sessions_run", "cases_judged_after_a_long_session", "via:direct", "via:allocation", "via:select_box", "order:reversed", "order:snake", "order:shuffled", "order:column_major", "k:1", "k:2", "k:3"]
 SOFT_DEADLINE = {"quick": 240, "thorough": 3300}
 
 _rect = _sat = _Solver = _rio = None
@@ -99,7 +99,8 @@ def generate(rng, tier, i):
         # negative / mixed-sign origins, fractional cells
         sx, sy = rng.choice([F(-21, 10), F(-7), F(-3, 2), F(-1, 10), F(-5)]), rng.choice([F(-7), F(-21, 10), F(0), F(-3, 10)])
         xs, ys = [x + sx for x in xs], [y + sy for y in ys]
-    return {"cls": cls, "xs": [geo.fl(x) for x in xs], "ys": [geo.fl(y) for y in ys], "occ": occ, "k": k, "bound": bound,
+    return {"session": 650 if i // 16 == 12 else 0,        # the 13th case of every shard is preceded by a long session (see check)
+            "cls": cls, "xs": [geo.fl(x) for x in xs], "ys": [geo.fl(y) for y in ys], "occ": occ, "k": k, "bound": bound,
             "via": via, "bseed": rng.randrange(1 << 30), "order": rng.choice(["row_major", "row_major", "reversed", "column_major", "snake", "shuffled"])}
 
 
@@ -231,8 +232,20 @@ def run_solve(carrier, ifile, k, bound_value):
     return res, (_captured[-1] if _captured else None)
 
 
+_after_session = [False]
+
+
 def check(case, ctx):
     import random
+    if case.get("session"):
+        # a long session of the tool: hundreds of encodings of other problems first (process-wide stores that are trimmed, capped or
+        # restarted after many entries); every later case of this shard runs after it
+        from fv import histops as ho
+        ho.run_op({"k": "pb_many", "count": case["session"], "nv": 14, "seed": case["bseed"]}, 300.0)
+        _after_session[0] = True
+        ctx.count("long_sessions_run")
+    if _after_session[0]:
+        ctx.count("cases_judged_after_a_long_session")
     cells, nx, ny = cells_of(case)
     nb, k = nx * ny, case["k"]
     ctx.count("via:" + case["via"])
